@@ -186,6 +186,11 @@ func cmdCheck(args []string) int {
 				inconcl = append(inconcl, fmt.Sprintf("%s: counterexample %s did not reproduce (engine=%v native=%s)", h.name, path, okEngine, native))
 			}
 		}
+		if nViol > 0 {
+			// a confirmed violation decides the check: the remaining harnesses are not run
+			fmt.Printf("[%s] confirmed violation: %d of %d harnesses run\n", id, len(results), len(hs))
+			break
+		}
 	}
 	wall := time.Since(t0).Seconds()
 	writeEvidence(spec, tier, e, results, wall, nViol, inconcl)
